@@ -1,0 +1,230 @@
+//! Verification hooks (cargo feature `verif-hooks`, off by default).
+//!
+//! `SimChain` wires the chain service stages exactly as `build_chain_services`
+//! does, but spawns no thread: each stage handler becomes a step that a
+//! deterministic simulator calls, so the simulator alone decides how the
+//! insert / preload / verify stages interleave.
+use crate::chain_controller::ChainController;
+use crate::chain_service::ChainService;
+use crate::init_load_unverified::InitLoadUnverified;
+use crate::orphan_broker::OrphanBroker;
+use crate::preload_unverified_blocks_channel::PreloadUnverifiedBlocksChannel;
+pub use crate::utils::orphan_block_pool::{EXPIRED_EPOCH, OrphanBlockPool};
+use crate::verify::ConsumeUnverifiedBlockProcessor;
+use crate::{LonelyBlock, LonelyBlockHash, ProcessBlockRequest, TruncateRequest, UnverifiedBlock};
+use ckb_channel::{self as channel, Receiver, Request};
+use ckb_constant::sync::BLOCK_DOWNLOAD_WINDOW;
+use ckb_error::Error;
+use ckb_shared::{ChainServicesBuilder, Shared};
+use ckb_types::packed::Byte32;
+use dashmap::DashSet;
+use std::sync::Arc;
+use std::sync::atomic::AtomicBool;
+
+/// The chain service stages without their threads.
+pub struct SimChain {
+    shared: Shared,
+    chain_service: ChainService,
+    process_block_rx: Receiver<ProcessBlockRequest>,
+    preload: PreloadUnverifiedBlocksChannel,
+    preload_unverified_rx: Receiver<LonelyBlockHash>,
+    unverified_block_rx: Receiver<UnverifiedBlock>,
+    truncate_block_rx: Receiver<TruncateRequest>,
+    processor: ConsumeUnverifiedBlockProcessor,
+    orphan_pool: Arc<OrphanBlockPool>,
+    is_pending_verify: Arc<DashSet<Byte32>>,
+    controller: ChainController,
+    init_load: InitLoadUnverified,
+    // keep the stop senders alive so that the receivers never report disconnection
+    _stops: (channel::Sender<()>,),
+}
+
+impl SimChain {
+    /// Same wiring as `build_chain_services`, no threads.
+    pub fn new(builder: ChainServicesBuilder) -> Self {
+        let orphan_pool = Arc::new(OrphanBlockPool::with_capacity(
+            BLOCK_DOWNLOAD_WINDOW as usize,
+        ));
+        let (truncate_block_tx, truncate_block_rx) = channel::bounded(1);
+        let (preload_stop_tx, preload_stop_rx) = channel::bounded::<()>(1);
+        let (preload_unverified_tx, preload_unverified_rx) =
+            channel::bounded::<LonelyBlockHash>(BLOCK_DOWNLOAD_WINDOW as usize * 10);
+        let (unverified_block_tx, unverified_block_rx) =
+            channel::bounded::<UnverifiedBlock>(128usize);
+        let is_pending_verify: Arc<DashSet<Byte32>> = Arc::new(DashSet::new());
+        let processor = ConsumeUnverifiedBlockProcessor {
+            shared: builder.shared.clone(),
+            is_pending_verify: Arc::clone(&is_pending_verify),
+            proposal_table: builder.proposal_table,
+        };
+        let preload = PreloadUnverifiedBlocksChannel::new(
+            builder.shared.clone(),
+            preload_unverified_rx.clone(),
+            unverified_block_tx,
+            preload_stop_rx,
+        );
+        let (process_block_tx, process_block_rx) = channel::bounded(24);
+        let is_verifying_on_startup = Arc::new(AtomicBool::new(true));
+        let controller = ChainController::new(
+            process_block_tx,
+            truncate_block_tx,
+            Arc::clone(&orphan_pool),
+            Arc::clone(&is_verifying_on_startup),
+        );
+        let init_load = InitLoadUnverified::new(
+            builder.shared.clone(),
+            controller.clone(),
+            is_verifying_on_startup,
+        );
+        let orphan_broker = OrphanBroker::new(
+            builder.shared.clone(),
+            Arc::clone(&orphan_pool),
+            preload_unverified_tx,
+            Arc::clone(&is_pending_verify),
+        );
+        let chain_service =
+            ChainService::new(builder.shared.clone(), process_block_rx.clone(), orphan_broker);
+        SimChain {
+            shared: builder.shared,
+            chain_service,
+            process_block_rx,
+            preload,
+            preload_unverified_rx,
+            unverified_block_rx,
+            truncate_block_rx,
+            processor,
+            orphan_pool,
+            is_pending_verify,
+            controller,
+            init_load,
+            _stops: (preload_stop_tx,),
+        }
+    }
+
+    /// The shared handle this chain works on.
+    pub fn shared(&self) -> &Shared {
+        &self.shared
+    }
+
+    /// A controller whose requests queue up until `step_insert_queued` is called.
+    pub fn controller(&self) -> &ChainController {
+        &self.controller
+    }
+
+    /// Stage 1 on a block handed over directly (what the ChainService thread does per request).
+    pub fn step_insert(&self, lonely_block: LonelyBlock) {
+        self.chain_service.verif_process_block(lonely_block);
+    }
+
+    /// Requests queued through the controller and not yet taken by stage 1.
+    pub fn insert_pending(&self) -> usize {
+        self.process_block_rx.len()
+    }
+
+    /// Stage 1 on the next request queued through the controller.
+    pub fn step_insert_queued(&self) -> bool {
+        match self.process_block_rx.try_recv() {
+            Ok(Request {
+                responder,
+                arguments,
+            }) => {
+                self.chain_service.verif_process_block(arguments);
+                let _ = responder.send(());
+                true
+            }
+            Err(_) => false,
+        }
+    }
+
+    /// Blocks waiting for stage 2 (preload).
+    pub fn preload_pending(&self) -> usize {
+        self.preload_unverified_rx.len()
+    }
+
+    /// Stage 2 on the next queued block.
+    pub fn step_preload(&self) -> bool {
+        match self.preload_unverified_rx.try_recv() {
+            Ok(task) => {
+                self.preload.verif_preload(task);
+                true
+            }
+            Err(_) => false,
+        }
+    }
+
+    /// Blocks waiting for stage 3 (contextual verification).
+    pub fn verify_pending(&self) -> usize {
+        self.unverified_block_rx.len()
+    }
+
+    /// Stage 3 on the next queued block.
+    pub fn step_verify(&mut self) -> bool {
+        match self.unverified_block_rx.try_recv() {
+            Ok(task) => {
+                self.processor.consume_unverified_blocks(task);
+                true
+            }
+            Err(_) => false,
+        }
+    }
+
+    /// Truncate requests queued through the controller.
+    pub fn step_truncate_queued(&mut self) -> bool {
+        match self.truncate_block_rx.try_recv() {
+            Ok(Request {
+                responder,
+                arguments,
+            }) => {
+                let _ = responder.send(self.processor.truncate(&arguments));
+                true
+            }
+            Err(_) => false,
+        }
+    }
+
+    /// Truncate the main chain directly (what the verify thread does per truncate request).
+    pub fn truncate(&mut self, target_tip_hash: &Byte32) -> Result<(), Error> {
+        self.processor.truncate(target_tip_hash)
+    }
+
+    /// The body of the 60 s orphan-cleaner tick.
+    pub fn clean_expired_orphans(&self) {
+        self.chain_service.verif_clean_expired_orphans();
+    }
+
+    /// The start-up scan of `InitLoadUnverified`: submits every stored-but-unverified block
+    /// through the controller (they queue up for `step_insert_queued`). The request channel
+    /// holds 24 entries, so `drain` is called whenever it is full.
+    pub fn init_load_unverified(&self, mut drain: impl FnMut(&SimChain)) -> usize {
+        let hashes = self.init_load.verif_find_unverified();
+        let n = hashes.len();
+        for hash in hashes {
+            if self.process_block_rx.is_full() {
+                drain(self);
+            }
+            self.init_load.verif_submit(&hash);
+        }
+        self.init_load.verif_finish();
+        n
+    }
+
+    /// The orphan pool shared with the controller.
+    pub fn orphan_pool(&self) -> &Arc<OrphanBlockPool> {
+        &self.orphan_pool
+    }
+
+    /// Whether a block is queued for (or inside) verification.
+    pub fn is_pending_verify(&self, hash: &Byte32) -> bool {
+        self.is_pending_verify.contains(hash)
+    }
+
+    /// Number of blocks queued for (or inside) verification.
+    pub fn pending_verify_len(&self) -> usize {
+        self.is_pending_verify.len()
+    }
+
+    /// The proposal table maintained by the verify stage.
+    pub fn proposal_table(&self) -> &ckb_proposal_table::ProposalTable {
+        &self.processor.proposal_table
+    }
+}
